@@ -15,8 +15,9 @@ _classes: Dict[str, Any] = {}
 def shape_key(case: dict) -> str:
     fields = [[f["name"], f["alias"], f["req"]] for f in case["fields"]]
     vals = [[v["name"], sorted(v["deps"]), v["fld"], sorted(v["disc"]), v["style"]] for v in case["vals"]]
+    ext = [[x["name"], x["style"]] for x in case.get("ext", [])]
     return json.dumps([fields, vals, case.get("variant", ""), case.get("split", 0), case.get("wo", ""), bool(case.get("depreq")),
-                       bool(case.get("generic"))])
+                       bool(case.get("generic")), ext, case.get("extmode", "arg") if ext else ""])
 
 
 def pn(name: str) -> str:
@@ -36,6 +37,7 @@ def class_source(case: dict) -> str:
     wo = case.get("wo", "")
     lines = ["from dataclasses import dataclass, field, InitVar",
              "from apischema import alias, validator, ValidationError, dependent_required",
+             "from apischema.metadata import validators", "from typing import Annotated",
              "from apischema.objects import get_alias", "from typing import Generic, TypeVar", "T = TypeVar('T')", "CALLS = []", "OUT = {}", "CTOR = [0]", ""]
 
     def fields_block():
@@ -115,7 +117,34 @@ def class_source(case: dict) -> str:
         lines += ["@dataclass", "class K(Generic[T]):" if case.get("generic") else "class K:"] + fields_block()
         for v in case["vals"]:
             lines += validator_block(v)
+    lines += ext_block(case)
     return "\n".join(lines) + "\n"
+
+
+def ext_block(case: dict) -> List[str]:
+    """Validators that are not bound to the class (plain functions), and where they are attached:
+    TARGET is the type to deserialize, VARGS the `validators=` argument, WRAP the enclosing key."""
+    ext = case.get("ext", [])
+    mode = case.get("extmode", "arg")
+    tp = "K[int]" if case.get("generic") and not case.get("split") else "K"
+    out = [""]
+    for x in ext:
+        out.append(f"def {x['name']}(obj):")
+        out.append(f"    CALLS.append({x['name']!r})")
+        out.append(f"    if OUT[{x['name']!r}]:")
+        if x["style"] == "raise":
+            out.append(f"        raise ValidationError('VFAIL:{x['name']}')")
+        else:
+            out += [f"        yield 'VFAIL:{x['name']}'", "    return", "    yield"]
+    names = ", ".join(x["name"] for x in ext)
+    if not ext or mode == "arg":
+        out += [f"TARGET = {tp}", f"VARGS = [{names}]", "WRAP = None"]
+    elif mode == "annotated":
+        out += [f"TARGET = Annotated[{tp}, validators({names})]", "VARGS = []", "WRAP = None"]
+    else:
+        out += ["@dataclass", "class W:", f"    k_f: {tp} = field(metadata=alias('W') | validators({names}))",
+                "TARGET = W", "VARGS = []", "WRAP = 'W'"]
+    return out
 
 
 def first_dep(case: dict, v: dict) -> str:
@@ -167,7 +196,7 @@ def run_case(case: dict, timeout_s: float = 5.0) -> dict:
     mod.CALLS.clear()
     mod.CTOR[0] = 0
     mod.OUT.clear()
-    mod.OUT.update({v["name"]: v["out"] == "fail" for v in case["vals"]})
+    mod.OUT.update({v["name"]: v["out"] == "fail" for v in case["vals"] + list(case.get("ext", []))})
     data = {}
     for f in case["fields"]:
         if f["st"] == "valid":
@@ -175,11 +204,20 @@ def run_case(case: dict, timeout_s: float = 5.0) -> dict:
         elif f["st"] == "invalid":
             data[f["alias"]] = "x"
     out: Dict[str, Any]
+    if mod.WRAP is not None:
+        data = {mod.WRAP: data}
     try:
-        res = deserialize(mod.K[int] if case.get("generic") and not case.get("split") else mod.K, data)
+        res = deserialize(mod.TARGET, data, validators=mod.VARGS) if mod.VARGS else deserialize(mod.TARGET, data)
         out = {"kind": "ok", "errs": []}
     except ValidationError as err:
-        out = {"kind": "verr", "errs": bridge.enc_errors(err.errors)}
+        errs = bridge.enc_errors(err.errors)
+        if mod.WRAP is not None:
+            # the model describes the object itself: every error lies under the enclosing key
+            if all(loc[:1] == [mod.WRAP] for loc, _ in errs):
+                errs = [[loc[1:], rule] for loc, rule in errs]
+            else:
+                errs = [[["<outside the enclosing key>"] + loc, rule] for loc, rule in errs]
+        out = {"kind": "verr", "errs": errs}
     except RecursionError:
         out = {"kind": "nonterm", "errs": []}
     except Exception as exc:
